@@ -38,14 +38,17 @@ def run_verus(pid, unit, tier, seed, keep=False):
         files = sorted(rel for rel in meta["files"] if any(fn.startswith(os.path.basename(rel) + "::") for fn in scope_fns))
         extra = []
         if tier == "quick":
-            mods = sorted(set([_module_of(r) for r in files] + ["verif_specs"] + unit.get("modules", [])))
+            specs = unit.get("specs")
+            if specs is None:
+                specs = [n[:-3] for n in sorted(os.listdir(engine.CONTRACTS)) if n.endswith(".rs")]
+            mods = sorted(set([_module_of(r) for r in files] + ["verif_specs::m" + x for x in specs] + unit.get("modules", [])))
             for m in mods:
                 extra += ["--verify-only-module", m]
-        run = engine.run_verus(s, extra=extra, rlimit=unit.get("rlimit"))
+        run = engine.run_verus(s, extra=extra, rlimit=unit.get("rlimit", 200))
         summ = engine.summarize(run)
         fails = engine.classify(meta, run)
         out["checker_cmd"] = run["cmd"]
-        out["rlimit"] = unit.get("rlimit", 10)
+        out["rlimit"] = unit.get("rlimit", 200)
         tm = summ.get("times_ms") or {}
         out["smt_time_s"] = round(((tm.get("smt") or {}).get("total", 0)) / 1000.0, 2)
         out["verified_functions"] = summ.get("verified")
@@ -55,7 +58,7 @@ def run_verus(pid, unit, tier, seed, keep=False):
             return out
         failed_ids = set()
         for f in fails:
-            in_scope = (f["fn"] in scope_fns) or (f["file"] or "").endswith("verif_specs.rs")
+            in_scope = (f["fn"] in scope_fns) or "verif_specs" in (f["file"] or "")
             if not in_scope:
                 continue
             if f["kind"] == "rlimit":
